@@ -75,6 +75,8 @@ class TimeInterp(PathInterp):
             if got != OTHER:
                 return got
             base = self.q(e.value, env)
+            if base == "TC":
+                return REL if e.attr == "time" else OTHER
             if e.attr in ("seconds", "days", "microseconds", "nanoseconds", "components") and base in TIMEQ:
                 self.report("lossy", e, f"`{norm(e)}` takes one component of a {base} time span (Timedelta.{e.attr} drops whole days / fractions); "
                                         "the span in seconds is .total_seconds()")
@@ -222,7 +224,14 @@ class TimeInterp(PathInterp):
             env = self.bind_walrus(value, env)
             qv = self.q(value, env)
             for t in targets:
-                if isinstance(t, ast.Name):
+                if isinstance(t, (ast.Tuple, ast.List)) and isinstance(value, (ast.Tuple, ast.List)) and len(t.elts) == len(value.elts):
+                    qs = [self.q(x, env) for x in value.elts]
+                    for tt, qq in zip(t.elts, qs):
+                        if isinstance(tt, ast.Name):
+                            env = env.set(tt.id, qq)
+                        elif isinstance(tt, ast.Attribute):
+                            env = env.set(norm(tt), qq)
+                elif isinstance(t, ast.Name):
                     env = env.set(t.id, qv)
                 elif is_self_attr(t, self.frames_attr):
                     if isinstance(value, ast.List):
@@ -258,6 +267,14 @@ class TimeInterp(PathInterp):
     def cond(self, test, env: Env):
         env = self.bind_walrus(test, env)
         self.q(test, env)
+        # `isinstance(x, TimeCourse)`: on that side x is an integrator result, whose .time is REL
+        pol, t = True, test
+        while isinstance(t, ast.UnaryOp) and isinstance(t.op, ast.Not):
+            pol, t = not pol, t.operand
+        if isinstance(t, ast.Call) and norm(t.func) == "isinstance" and len(t.args) == 2 and norm(t.args[1]).endswith("TimeCourse") \
+                and isinstance(t.args[0], (ast.Name, ast.Attribute)):
+            tc = env.set(norm(t.args[0]), "TC")
+            return ([tc], [env]) if pol else ([env], [tc])
         return [env], [env]
 
     def stmt(self, s, env):
